@@ -99,3 +99,27 @@ VARIANTS = [
       "fastmath=False, boundscheck=False)", "fastmath=False, "
       "boundscheck=True)", "silent"),
 ]
+
+_PLACE = (
+    "            if (y[day, home_idx] != 0) or (y[day, away_idx] != 0):\n"
+    "                continue  # day already blocked\n"
+    "            y[day, home_idx] = away_idx + 1\n"
+    "            y[day, away_idx] = -(home_idx + 1)\n"
+    "            break\n")
+_SEARCH = (
+    "            if (y[day, home_idx] == 0) and (y[day, away_idx] == 0):\n"
+    "                break\n")
+VARIANTS += [
+    V("silent-loop-variable-after-loop", T + "game_encoding.py", _PLACE,
+      _SEARCH
+      + "        if (y[day, home_idx] == 0) and (y[day, away_idx] == 0):\n"
+      "            y[day, home_idx] = away_idx + 1\n"
+      "            y[day, away_idx] = -(home_idx + 1)\n", "silent", "",
+      "the loop target keeps its last value (days - 1) after exhaustion"),
+    V("loop-variable-after-loop-plus-one", T + "game_encoding.py", _PLACE,
+      _SEARCH
+      + "        if (y[day, home_idx] == 0) and (y[day, away_idx] == 0):\n"
+      "            y[day, home_idx] = away_idx + 1\n"
+      "            y[day + 1, away_idx] = -(home_idx + 1)\n", "fire",
+      "D13.1"),
+]
